@@ -211,6 +211,19 @@ def step (s : St) (line : String) : St × String :=
     if !s.h.ok then (s, "dead") else
     let s1 := hop s .run
     (s1, "run " ++ obs s1)
+  | "runinc" =>
+    -- one includer pass after `at` of the sync loop's durable writes (inside a block application)
+    if !s.h.ok then (s, "dead") else
+    let k := o.nat "at"
+    let s1 := { s with h := FullNode.hstep2 s.cfg s.h (.runInc k) }
+    if dupChain s then (s1, "runinc " ++ obs s1) else
+    let mid :=
+      if FullNode.midFires s.cfg s.h k then
+        let v := FullNode.midView s.cfg s.h k
+        let a := (Submit.includerIter v).1
+        s!"mid={v.n.store.height}/{a.daInc}/{metaNat a.n.store Submit.daIncKey}/{natList ((a.finals.take (a.finals.length - v.finals.length)).reverse)}"
+      else "mid=-"
+    (s1, s!"runinc {mid} " ++ obs s1)
   | "p2p" =>
     if !s.h.ok then (s, "dead") else
     let toks := if o.str "items" = "" || o.str "items" = "-" then [] else (o.str "items").splitOn ","
